@@ -123,4 +123,18 @@ theorem C03_spec_view (m : Mode) (v : VW) (n : Nat) (h : v.Inv n) (s e : Nat × 
   · refine ⟨fun v' hv' => by simp [specView, hok] at hv', fun _ => ?_⟩
     exact C03_view_invalid m v n h s e hw (fun hh => hok ⟨hh.1.1, hh.1.2, hh.2.1, hh.2.2⟩)
 
+/-- non-vacuity: the window `(1,0)..(3,2)` of a concrete 3x2 array, and the window `(1,0)..(2,2)` of that window (nesting),
+    as concrete computations -/
+example : VW.fromTooDee .release (1, 0) (3, 2) (⟨[1, 2, 3, 4, 5, 6], 2, 3⟩ : TD Nat) = .ok ⟨⟨1, 5⟩, 2, 2, 3⟩ := by rfl
+example : VW.view .debug ⟨⟨1, 5⟩, 2, 2, 3⟩ (1, 0) (2, 2) = .ok ⟨⟨2, 4⟩, 1, 2, 3⟩ := by rfl
+/-- non-vacuity of `C03_view_valid`: its hypotheses hold for that nested request (parent invariant included) -/
+example : ∃ v', VW.view .debug ⟨⟨1, 5⟩, 2, 2, 3⟩ (1, 0) (2, 2) = .ok v' ∧ v'.Inv 8 ∧ (v'.numCols, v'.numRows) = (1, 2) := by
+  obtain ⟨v', h1, _, h3, h4, _⟩ := C03_view_valid .debug ⟨⟨1, 5⟩, 2, 2, 3⟩ 8
+    ⟨by decide, by decide, by decide, by decide, by decide, by decide⟩ (1, 0) (2, 2) (by decide) (by decide)
+  exact ⟨v', h1, h3, h4⟩
+/-- non-vacuity of `C03_view_invalid`: an `end` beyond the parent panics -/
+example : VW.view .release ⟨⟨1, 5⟩, 2, 2, 3⟩ (0, 0) (3, 1) = .error .panic :=
+  (C03_view_invalid .release _ 8 ⟨by decide, by decide, by decide, by decide, by decide, by decide⟩ (0, 0) (3, 1)
+    (by decide) (by decide)).1
+
 end Toodee
